@@ -121,6 +121,7 @@ func runC12(t *testing.T, e *worlds.Env, tier string) (bool, any) {
 	aborted := false
 	var silentFor time.Duration
 	var ppTimeout time.Duration
+	sender2 := false
 	var tapB []byte
 	var ipPost *layer4.MatchRemoteIP
 	splitAt := 0
@@ -320,7 +321,17 @@ func runC12(t *testing.T, e *worlds.Env, tier string) (bool, any) {
 			}
 			h.VerifSetLogger(e.Log)
 			e.S.OnCleanup(func() { _ = h.Cleanup() })
-			if tp.Prob(1, 3, "consume") {
+			if mode == 1 && !failover && tp.Prob(1, 3, "second-sender") {
+				// a second client through the same proxy handler at about the same time: each upstream
+				// connection must get the header of the client whose stream follows it
+				plan2 = &worlds.ClientPlan{ID: 2, Addr: worlds.ClientAddr(2), End: worlds.EndHalfClose}
+				model2 = &worlds.ConnModel{ID: 2, Key: e.S.Seed*7 + 2, Addr: plan2.Addr.String()}
+				model2.App = worlds.Stream(model2.Key, 16+tp.LogRange(0, 6000, "app-len-2"))
+				plan2.App = model2.App
+				plan2.StartAt = time.Duration(tp.Choose(3, "start2-ms")) * time.Millisecond
+				sender2 = true
+			}
+			if !sender2 && tp.Prob(1, 3, "consume") {
 				k := tp.LogRange(0, 500, "consume-k")
 				if k > appLen {
 					k = appLen
@@ -547,11 +558,31 @@ func runC12(t *testing.T, e *worlds.Env, tier string) (bool, any) {
 					fail("sent-header", "proxy configured for v%d sent a v%d header", sendVer, ver)
 					return
 				}
+				rest := got[n:]
+				if sender2 {
+					// which client's stream follows the header decides whose addresses it has to carry
+					e2 := model2.App
+					own1 := len(rest) >= 8 && len(rest) <= len(exp) && bytes.Equal(rest, exp[:len(rest)])
+					own2 := len(rest) >= 8 && len(rest) <= len(e2) && bytes.Equal(rest, e2[:len(rest)])
+					switch {
+					case own2 && !own1:
+						if !has || src.String() != model2.Addr {
+							fail("sent-addresses", "upstream connection %s#%d carries the stream of client %s behind a header declaring %v -> %v (two clients connected at about the same time)", upRaw.Addr, upRaw.Idx, model2.Addr, src, dst)
+							return
+						}
+						continue
+					case !own1:
+						if len(rest) >= 8 {
+							fail("sent-stream", "bytes after the header are the stream of neither client: % x", head(rest, 12))
+							return
+						}
+						continue // too little to tell the owner
+					}
+				}
 				if !has || src.String() != effSrc || dst.String() != effDst {
 					fail("sent-addresses", "header sent upstream declares %v -> %v; the client's effective addresses are %s -> %s", src, dst, effSrc, effDst)
 					return
 				}
-				rest := got[n:]
 				if len(rest) > len(exp) || !bytes.Equal(rest, exp[:len(rest)]) {
 					fail("sent-stream", "bytes after the header are not the client's stream from offset %d: want % x got % x", off, head(exp, 12), head(rest, 12))
 					return
